@@ -60,6 +60,7 @@ type simNode struct {
 	mu          sync.Mutex
 	unreachable bool
 	gate        func(kind string) error // called before serving an incoming RPC; may block or fail
+	streamFault string                  // "" | "break" (a result stream fails after its first item) | "badid" (an item with a malformed id)
 }
 
 type simCluster struct {
@@ -217,6 +218,7 @@ func (n *simNode) check(kind string) error {
 }
 
 func (n *simNode) setUnreachable(v bool)             { n.mu.Lock(); n.unreachable = v; n.mu.Unlock() }
+func (n *simNode) setStreamFault(f string)           { n.mu.Lock(); n.streamFault = f; n.mu.Unlock() }
 func (n *simNode) setGate(g func(kind string) error) { n.mu.Lock(); n.gate = g; n.mu.Unlock() }
 
 // ---------------------------------------------------------------- raft transport shim
@@ -329,6 +331,7 @@ type memStream struct {
 	ctx   context.Context
 	items []*pb.SearchResultItem
 	pos   int
+	fault string
 }
 
 func (s *memStream) Send(m *pb.SearchResultItem) error { s.items = append(s.items, m); return nil }
@@ -342,10 +345,21 @@ func (s *memStream) Header() (metadata.MD, error)      { return nil, nil }
 func (s *memStream) Trailer() metadata.MD              { return nil }
 func (s *memStream) CloseSend() error                  { return nil }
 func (s *memStream) Recv() (*pb.SearchResultItem, error) {
+	if s.fault == "break" && s.pos >= 1 {
+		return nil, fmt.Errorf("rpc error: code = Unavailable desc = transport is closing")
+	}
 	if s.pos >= len(s.items) {
+		if s.fault == "break" {
+			return nil, fmt.Errorf("rpc error: code = Unavailable desc = transport is closing")
+		}
 		return nil, io.EOF
 	}
 	s.pos++
+	if s.fault == "badid" && s.pos == 1 {
+		it := *s.items[0]
+		it.Id = []byte{1, 2, 3}
+		return &it, nil
+	}
 	return s.items[s.pos-1], nil
 }
 
@@ -390,6 +404,13 @@ func (c *memSearchClient) SearchPartitions(ctx context.Context, in *pb.SearchPar
 	if err := services.NewSearchServer(c.to.dm).SearchPartitions(in, st); err != nil {
 		rec(true, nil)
 		return nil, err
+	}
+	c.to.mu.Lock()
+	st.fault = c.to.streamFault
+	c.to.mu.Unlock()
+	if st.fault == "break" || (st.fault == "badid" && len(st.items) > 0) {
+		rec(true, nil) // the worker for this node has to report an error
+		return st, nil
 	}
 	rec(false, append([]*pb.SearchResultItem(nil), st.items...))
 	return st, nil
